@@ -137,6 +137,39 @@ def audit(prop):
     return thms, log, rc == 0
 
 
+def pin_status(prop):
+    """transcription pins of a property: (module or None, [declarations whose digest differs from the pinned one])"""
+    f = os.path.join(LEAN, "GN", "Props", "Pins", prop + ".lean")
+    if not os.path.exists(f):
+        return None, []
+    try:
+        gen = open(os.path.join(LEAN, "GN", "Generated", "SourcePins.lean")).read()
+    except OSError:
+        gen = ""
+    cur = {m.group(1): int(m.group(2), 16) for m in re.finditer(r"^def (\w+) : Nat := (0x[0-9a-f]+)", gen, re.M)}
+    changed = []
+    for m in re.finditer(r'\("(\w+)", \w+, (0x[0-9a-f]+)\)', open(f).read()):
+        name, want = m.group(1), int(m.group(2), 16)
+        if name not in cur:
+            changed.append(name + " (gone)")
+        elif cur[name] != want:
+            changed.append(name)
+    return "GN.Props.Pins." + prop, changed
+
+
+def audit_pins(prop):
+    path = os.path.join("GN", "Audit", "Pins" + prop + ".lean")
+    if not os.path.exists(os.path.join(LEAN, path)):
+        return {}
+    rc, log = lean_file(path)
+    thms = {}
+    for m in re.finditer(r"'([^']+)' depends on axioms: \[([^\]]*)\]", log, re.S):
+        thms[m.group(1)] = [a.strip() for a in m.group(2).replace("\n", " ").split(",") if a.strip()]
+    for m in re.finditer(r"'([^']+)' does not depend on any axioms", log):
+        thms[m.group(1)] = []
+    return thms
+
+
 def strip_comments(src):
     # remove /- ... -/ (nested) and -- comments, and string literals
     out = []
